@@ -211,6 +211,8 @@ PROPERTIES["C04"] = {
     + [MH("c04_cpio_%s_%d_%d" % (m, t, n), inputs="cpio entry header: %s magic, 13 symbolic hex fields, %d symbolic name/padding bytes, %d files in the header" % (m, t, n),
           bounds="payload::Reader::new on one hostile entry header", timeout=900, tier=("quick" if (t, n) in ((2, 0), (12, 1)) or m == "stripped" else "thorough"),
           covers_unsat_ok=["entry accepted", "entry rejected"]) for m in ("newc", "crc", "stripped", "anymagic") for (t, n) in ((0, 0), (2, 0), (4, 1), (12, 1))]
+    + [MH("c04_fileiter_%d" % n, inputs="header file size: any 64-bit value; %d symbolic content bytes in a well-formed newc archive" % n, bounds="FileIterator::next (Package::files) on one entry", timeout=600)
+       for n in (0, 1, 3, 4)]
     + [MH("c04_paths_%d_%d" % s, inputs="%d base names / directory indexes (any u32), %d directory names" % s, bounds="get_file_paths", timeout=600,
           covers_unsat_ok=["paths returned", "error returned"]) for s in ((1, 1), (2, 1), (2, 2), (1, 0), (0, 0), (3, 2))]
     + [MH("c04_hdr_bin_18_0", inputs="as c04_hdr_18_0 but store bytes unrestricted (0..255)", bounds="string decoding of non-ASCII bytes is outside the bound", timeout=900,
@@ -261,7 +263,14 @@ PROPERTIES["C03"] = {
                      bounds="tag subset mask %d (1=MD5 2=SHA1 4=SHA256 8=payload digest); one-entry main header" % m,
                      covers_unsat_ok=["verification succeeds", "verification fails"]) for m in range(16)]
     + [MH("c03_md5len_%d" % l, timeout=900, inputs="recorded MD5 entry of %d symbolic bytes (not 16)" % l, bounds="MD5 tag with a value of the wrong length must never verify",
-          covers_unsat_ok=["verification succeeds", "verification fails"]) for l in (0, 1, 8, 15, 17, 32)],
+          covers_unsat_ok=["verification succeeds", "verification fails"]) for l in (0, 1, 8, 15, 17, 32)]
+    + [MH("c03_%slen_%d" % (k, l), timeout=900, inputs="recorded %s of %d symbolic characters (not %d)" % (nm, l, full), bounds="a recorded digest of the wrong length must never verify",
+          covers_unsat_ok=["verification succeeds", "verification fails"])
+       for (k, nm, full, ls) in (("sha1", "SHA1 header digest", 40, (0, 1, 39, 41)), ("sha256", "SHA256 header digest", 64, (0, 1, 63, 65)), ("pd", "payload digest", 64, (0, 1, 63, 65))) for l in ls]
+    # lemma the MIR harnesses rest on: verify_digests hashes the re-serialised header, so "the file's bytes" are covered only if parse -> write reproduces them
+    + [H("c01_index_entry", sub="codec", role="lemma", inputs="all 16 entry bytes + 3 trailing bytes", bounds="lemma: an accepted index entry is written back byte for byte (Kani)", timeout=300),
+       H("c01_index_entry_sig", sub="codec", role="lemma", inputs="all 16 entry bytes", bounds="lemma, IndexSignatureTag instance (Kani)", timeout=300),
+       H("c01_intro", sub="codec", role="lemma", inputs="all 16 intro bytes", bounds="lemma: an accepted intro is written back byte for byte except the reserved bytes (Kani)", timeout=300)],
     "bounds": "every subset of the four digest tags; recorded values, algorithm id, header store bytes and payload bytes symbolic; package shape fixed (main header of one or two entries, 3 payload bytes)",
     "outside": "other package shapes/sizes; the digest implementations themselves (modelled as uninterpreted functions)",
     "assumptions": A_MIR + [A_UF],
@@ -304,6 +313,10 @@ PROPERTIES["C02"] = {
            bounds="OpenPGP array present", covers_unsat_ok=["verifier consulted twice"]),
         MH("c02_verify_digest", timeout=1800, inputs="5 shapes with a symbolic SHA256 header digest next to the signatures", bounds="digest check inside verify_signature",
            covers_unsat_ok=["verifier consulted twice"]),
+        MH("c02_verify_digest_short", timeout=900, inputs="2 shapes with a recorded SHA256 header digest of 63 symbolic characters", bounds="a digest of the wrong length never lets verify_signature succeed",
+           covers_unsat_ok=["verifier consulted twice", "verification succeeds", "verification fails"]),
+        MH("c02_verify_digest_empty", timeout=900, inputs="1 shape with an empty recorded SHA256 header digest", bounds="a digest of the wrong length never lets verify_signature succeed",
+           covers_unsat_ok=["verifier consulted twice", "verification succeeds", "verification fails"]),
     ],
     "bounds": "all 135 combinations of {OPENPGP: absent, wrong type, array of 0/1/2 entries} x {RSA, DSA, PGP: absent, binary, wrong type}; signature and payload bytes symbolic; every accept/reject pattern of the verifier; base64 decoding = error or arbitrary bytes of length 0/3/6; one-entry main header",
     "outside": "the second sentence of the property (tamper detection for packages signed by this library) rests on collision resistance and signature unforgeability - not a solver question; real OpenPGP parsing/crypto (the Verifying trait is the seam); more than two OpenPGP entries",
